@@ -930,3 +930,920 @@ func clauseMountRegistrationRolledBack(c *Ctx, id string) {
 	}
 	c.verdict(c.fnKey(f)+":registration-rolled-back", reg.Pos(), good && n > 0, "failed mounts leave no entry in fs.layer", "Mount can fail after registering the layer (FUSE server or WaitMount error) and leaves fs.layer[mountpoint] pointing at a layer whose reference was already dropped: Check(mountpoint) then reports an unmounted directory as available: "+detail)
 }
+
+// clauseTreeBuilderParity: structural agreement of the two tree builders (estargz.(*Reader).initFields for the memory
+// store, db.(*reader).initNodes for the bolt store) on two points the TOC order can hit.
+func clauseTreeBuilderParity(c *Ctx, id string) {
+	const dbp = "cmd/containerd-stargz-grpc/db"
+	c.clause(id, "T5+T1", "both tree builders link an entry under its parent only when its name differs from its parent's (the root entry is not its own child), and the bolt builder counts the parent's link of a directory that it created implicitly only once when the directory's own entry arrives", 3)
+	notSelf := func(f *ssa.Function) []edge {
+		return condEdges(f, func(cond ssa.Value) int {
+			b, ok := cond.(*ssa.BinOp)
+			if !ok || (b.Op != token.EQL && b.Op != token.NEQ) {
+				return 0
+			}
+			isPD := func(v ssa.Value) bool {
+				for _, x := range append([]ssa.Value{v}, reachingVals(v)...) {
+					if call, ok := stripConv(x).(*ssa.Call); ok && strings.HasSuffix(calleeID(call), ".parentDir") {
+						return true
+					}
+				}
+				return false
+			}
+			if !(isPD(b.X) != isPD(b.Y)) {
+				return 0
+			}
+			if b.Op == token.NEQ {
+				return 1
+			}
+			return -1
+		})
+	}
+	// memory store
+	if f := c.mustFn("estargz", "(*Reader).initFields"); f != nil {
+		ne := notSelf(f)
+		for _, ci := range callsIn(f, idIs("estargz.(*TOCEntry).addChild")) {
+			okp, _ := mustPass(f, ci, newCuts().addEdges(ne))
+			c.verdict(c.fnKey(f)+":no-self-child", ci.Pos(), okp && len(ne) > 0, "linked only when name != parentDir(name)", "the memory tree builder can link the root entry as a child of itself")
+		}
+	}
+	// bolt store: the entry-level setChild of initNodes (inside the Batch literal)
+	if f := c.mustFn(dbp, "(*reader).initNodes"); f != nil {
+		n := 0
+		for _, lit := range withAnon(f) {
+			ne := notSelf(lit)
+			for _, ci := range callsIn(lit, idIs(dbp+".setChild")) {
+				n++
+				okp, path := mustPass(lit, ci, newCuts().addEdges(ne))
+				c.verdict(c.fnKey(lit)+":no-self-child", ci.Pos(), okp && len(ne) > 0, "linked only when name != parentDir(name)", "the bolt tree builder links an entry for the root directory itself (./) as child . of the root: a directory cycle (walks never end) and one link too many, while the memory store skips such entries: "+c.pathStr(lit, path))
+				// the isDir argument takes into account whether the directory was created implicitly before
+				args := ci.Common().Args
+				isDir := args[len(args)-1]
+				dep := false
+				var walk func(v ssa.Value, d int)
+				seen := map[ssa.Value]bool{}
+				walk = func(v ssa.Value, d int) {
+					v = stripConv(v)
+					if v == nil || d > 8 || seen[v] {
+						return
+					}
+					seen[v] = true
+					if _, ok := isFieldLoadAny(v, "implicit"); ok {
+						dep = true
+						return
+					}
+					switch x := v.(type) {
+					case *ssa.BinOp:
+						walk(x.X, d+1)
+						walk(x.Y, d+1)
+					case *ssa.UnOp:
+						if x.Op == token.NOT {
+							walk(x.X, d+1)
+						}
+						for _, rv := range reachingVals(v) {
+							if rv != v {
+								walk(rv, d+1)
+							}
+						}
+					case *ssa.Phi:
+						for _, e := range x.Edges {
+							walk(e, d+1)
+						}
+						// a phi of constants chosen by a branch on the flag
+						for _, p := range x.Block().Preds {
+							if iff, ok := p.Instrs[len(p.Instrs)-1].(*ssa.If); ok {
+								walk(iff.Cond, d+1)
+							}
+							for _, pp := range p.Preds {
+								if iff, ok := pp.Instrs[len(pp.Instrs)-1].(*ssa.If); ok {
+									walk(iff.Cond, d+1)
+								}
+							}
+						}
+					}
+				}
+				walk(isDir, 0)
+				c.verdict(c.fnKey(lit)+":implicit-dir-counted-once", ci.Pos(), dep, "whether the parent's link is counted depends on the directory having been created implicitly before", "the bolt tree builder counts the parent's '..' link again when the own entry of an implicitly created directory arrives (child listed before its directory): parent nlink is one higher than in the memory store")
+			}
+		}
+		if n == 0 {
+			c.bad(c.fnKey(f)+":links", f.Pos(), "initNodes no longer links entries through setChild")
+		}
+	}
+	if f := c.mustFn(dbp, "(*reader).getOrCreateDir"); f != nil {
+		marks := false
+		eachInstr(f, func(i ssa.Instruction) {
+			if st, ok := i.(*ssa.Store); ok {
+				if fa, ok := st.Addr.(*ssa.FieldAddr); ok && fieldName(fa) == "implicit" && isConstBool(st.Val, true) {
+					marks = true
+				}
+			}
+		})
+		c.verdict(c.fnKey(f)+":marks-implicit", f.Pos(), marks, "implicitly created directories are remembered as such", "implicitly created directories are not distinguished from listed ones (their parent link gets counted twice)")
+	}
+}
+
+// clauseLayerClosedOnlyByOwner: a layer object shared through the resolver's cache is closed only by the cache's
+// eviction hook (which runs when the last reference is gone); the only other close is of a freshly built layer that lost
+// the race for the cache slot.
+func clauseLayerClosedOnlyByOwner(c *Ctx, id string) {
+	const lp = "fs/layer"
+	c.clause(id, "T3+T9", "(*layer).close is called only from the cache eviction hooks, or on a layer object built by the same call that was not added to the cache", 2)
+	for _, s := range c.callSitesOf(idIs(lp+".(*layer).close"), c.liveFuncs()) {
+		call := s.instr.(ssa.CallInstruction)
+		key := c.fnKey(s.caller) + ":layer.close"
+		root := enclosingRoot(s.caller)
+		if s.caller.Parent() != nil && c.fnKey(root) == lp+".NewResolver" {
+			// a literal of NewResolver: must be installed as an OnEvicted hook
+			hook := false
+			for _, u := range literalUses(s.caller) {
+				if st, ok := u.(*ssa.Store); ok {
+					if fa, ok := st.Addr.(*ssa.FieldAddr); ok && fieldName(fa) == "OnEvicted" {
+						hook = true
+					}
+				}
+			}
+			c.verdict(key, s.instr.Pos(), hook, "closed by the eviction hook", "a literal of NewResolver closes a layer without being the cache's eviction hook")
+			continue
+		}
+		recv := stripConv(call.Common().Args[0])
+		fresh := false
+		for _, v := range append([]ssa.Value{recv}, reachingVals(recv)...) {
+			if cc, ok := stripConv(v).(*ssa.Call); ok && calleeID(cc) == lp+".newLayer" {
+				fresh = true
+			}
+		}
+		c.verdict(key, s.instr.Pos(), fresh, "closes the layer this call built itself (not the cached one)", "a layer obtained from the shared cache is closed directly: other holders (the store's layer manager, other mounts) keep using a closed layer until it expires")
+	}
+}
+
+// clauseCloneNotClosed: the bolt store's Clone shares the filesystem bucket with the original reader and its Close
+// deletes that bucket, so a cloned metadata reader must never be closed by its user.
+func clauseCloneNotClosed(c *Ctx, id string) {
+	c.clause(id, "T9", "a metadata reader obtained from Clone is never closed by its user (the bolt store's clone shares the original's bucket, which Close deletes)", 1)
+	n := 0
+	for _, f := range c.liveFuncs() {
+		for _, cl := range callsIn(f, func(id string, ci ssa.CallInstruction) bool {
+			return ci.Common().IsInvoke() && ci.Common().Method.Name() == "Clone" && typeQName(ci.Common().Value.Type()) == "metadata.Reader"
+		}) {
+			n++
+			clone := resultN(cl, 0)
+			bad := false
+			root := enclosingRoot(f)
+			for _, g := range withAnon(root) {
+				eachInstr(g, func(i ssa.Instruction) {
+					ci, ok := i.(ssa.CallInstruction)
+					if !ok || !ci.Common().IsInvoke() || ci.Common().Method.Name() != "Close" {
+						return
+					}
+					recv := ci.Common().Value
+					for _, v := range append(append([]ssa.Value{recv}, reachingVals(recv)...), phiLeaves(recv)...) {
+						if clone != nil && stripConv(v) == stripConv(clone) {
+							bad = true
+						}
+					}
+					for _, v := range reachingCellVals(recv) {
+						if clone != nil && stripConv(v) == stripConv(clone) {
+							bad = true
+						}
+					}
+				})
+			}
+			c.verdict(c.fnKey(f)+":clone-not-closed", cl.Pos(), !bad, "the cloned reader is only read from", "the cloned metadata reader is closed: with the bolt store this deletes the metadata of the layer that is still mounted")
+		}
+	}
+	if n == 0 {
+		c.okTrivial("no-clone", token.NoPos, "no Clone call in live code")
+	}
+}
+
+// clauseCommitNoEffectWhenClosed: a directory cache that was closed (its directory removed) is not re-created by a late commit.
+func clauseCommitNoEffectWhenClosed(c *Ctx, id string) {
+	c.clause(id, "T1", "the commit function of a directory-cache writer touches the file system (MkdirAll, Rename) only after it has seen the cache open", 2)
+	f := c.mustFn("cache", "(*directoryCache).Add")
+	if f == nil {
+		return
+	}
+	n := 0
+	for _, lit := range withAnon(f) {
+		open := condEdges(lit, func(cond ssa.Value) int {
+			if call, ok := stripConv(cond).(*ssa.Call); ok && calleeID(call) == "cache.(*directoryCache).isClosed" {
+				return -1
+			}
+			return 0
+		})
+		for _, ci := range callsIn(lit, idIs("os.MkdirAll", "os.Rename")) {
+			n++
+			okp, _ := mustPass(lit, ci, newCuts().addEdges(open))
+			c.verdict(c.fnKey(lit)+":"+calleeID(ci)+"-after-open-check", ci.Pos(), okp && len(open) > 0, "behind the !isClosed() edge", "the commit creates the cache directory (or publishes the file) before checking that the cache is still open: a commit finishing after the layer was released re-creates the removed cache directory")
+		}
+	}
+	if n == 0 {
+		c.bad(c.fnKey(f)+":commit-effects", f.Pos(), "commit function no longer found")
+	}
+}
+
+// clauseURLInstalledOnSuccess: the fetcher's redirected URL and header are replaced only by a successful redirect.
+func clauseURLInstalledOnSuccess(c *Ctx, id string) {
+	const rp = "fs/remote"
+	c.clause(id, "T1", "httpFetcher.url/header are overwritten by refreshURL only on the success edge of redirect()", 2)
+	f := c.mustFn(rp, "(*httpFetcher).refreshURL")
+	if f == nil {
+		return
+	}
+	var se []edge
+	for _, ci := range callsIn(f, idIs(rp+".redirect")) {
+		se = append(se, successEdges(f, ci)...)
+	}
+	n := 0
+	for _, fld := range []string{"url", "header"} {
+		for _, a := range c.fieldAccesses(rp+".httpFetcher", fld, []*ssa.Function{f}) {
+			if !a.write {
+				continue
+			}
+			n++
+			okp, _ := mustPass(f, a.instr, newCuts().addEdges(se))
+			c.verdict(c.fnKey(f)+":"+fld+"-on-success", a.instr.Pos(), okp && len(se) > 0, "stored only after redirect() succeeded", "a failed redirect overwrites the fetcher's "+fld+" (with the zero value): the held layer cannot reach its blob any more although the registry recovers")
+		}
+	}
+	if n == 0 {
+		c.bad(c.fnKey(f)+":stores", f.Pos(), "refreshURL no longer installs the redirected URL")
+	}
+}
+
+// clauseDetachWithChildren: a persistent directory node of the store is detached together with its children.
+func clauseDetachWithChildren(c *Ctx, id string) {
+	c.clause(id, "T2", "store: a layer directory node is removed from its parent only after its own children were removed (persistent inodes would otherwise survive and answer lookups for a released layer)", 1)
+	n := 0
+	for _, f := range c.pkgFuncs("store") {
+		for _, rm := range callsIn(f, func(id string, _ ssa.CallInstruction) bool { return strings.HasSuffix(id, "go-fuse/v2/fs.(*Inode).RmChild") }) {
+			n++
+			// a RmAllChildren call on the result of GetChild(same name) dominates it
+			good := false
+			names := varargs(rm.Common().Args[len(rm.Common().Args)-1])
+			for _, all := range callsIn(f, func(id string, _ ssa.CallInstruction) bool { return strings.HasSuffix(id, "go-fuse/v2/fs.(*Inode).RmAllChildren") }) {
+				gc, ok := stripConv(all.Common().Args[0]).(*ssa.Call)
+				if !ok || !strings.HasSuffix(calleeID(gc), "go-fuse/v2/fs.(*Inode).GetChild") {
+					continue
+				}
+				same := false
+				for _, nm := range names {
+					if sameValue(nm, gc.Call.Args[len(gc.Call.Args)-1]) {
+						same = true
+					}
+				}
+				if same && dominatesInstr(all, rm) {
+					good = true
+				}
+			}
+			c.verdict(c.fnKey(f)+":detach-with-children", rm.Pos(), good, "children removed before the node is detached", "a layer directory node is detached without removing its children: a client holding the old directory gets the stale diff/blob nodes of a released layer")
+		}
+	}
+	if n == 0 {
+		c.bad("store:detach", token.NoPos, "the store no longer detaches released layer directories")
+	}
+}
+
+// clauseClientPropagatesRPCErrors: the fuse-manager client reports success only when the manager's RPC succeeded.
+func clauseClientPropagatesRPCErrors(c *Ctx, id string) {
+	const fp = "fusemanager"
+	c.clause(id, "T1", "every fuse-manager client wrapper (init, Mount, Check, Unmount) returns nil only on the success edge of its RPC: a failed initialisation/restoration or mount is reported to the snapshotter", 4)
+	for _, nm := range []string{"(*Client).init", "(*Client).Mount", "(*Client).Check", "(*Client).Unmount"} {
+		f := c.mustFn(fp, nm)
+		if f == nil {
+			continue
+		}
+		want := strings.TrimPrefix(nm, "(*Client).")
+		want = strings.ToUpper(want[:1]) + want[1:]
+		var se []edge
+		for _, ci := range callsIn(f, func(_ string, ci ssa.CallInstruction) bool {
+			return ci.Common().IsInvoke() && ci.Common().Method.Name() == want
+		}) {
+			se = append(se, successEdges(f, ci)...)
+		}
+		good, n := len(se) > 0, 0
+		detail := ""
+		for _, r := range realReturns(f) {
+			if !returnsNilError(r) {
+				continue
+			}
+			n++
+			if o, path := mustPass(f, r, newCuts().addEdges(se)); !o {
+				good = false
+				detail = c.pathStr(f, path)
+			}
+		}
+		c.verdict(c.fnKey(f)+":rpc-error-propagated", f.Pos(), good && n > 0, "nil only after the "+want+" RPC succeeded", "the client wrapper can report success although the "+want+" RPC failed (e.g. a restoration that failed during Init): the snapshotter starts with recorded mountpoints that nothing serves: "+detail)
+	}
+}
+
+// clauseFreshDecodeTarget: records restored from the store are decoded into a value of their own.
+func clauseFreshDecodeTarget(c *Ctx, id string) {
+	const fp = "fusemanager"
+	c.clause(id, "T9", "restoreFuseInfo decodes every record into a value allocated for that record (json.Unmarshal merges into existing maps: a shared target would carry labels from one mountpoint to the next)", 1)
+	f := c.mustFn(fp, "(*Server).restoreFuseInfo")
+	if f == nil {
+		return
+	}
+	n := 0
+	for _, lit := range withAnon(f) {
+		for _, ci := range callsIn(lit, idIs("encoding/json.Unmarshal")) {
+			n++
+			tgt := stripConv(ci.Common().Args[1])
+			if mi, ok := tgt.(*ssa.MakeInterface); ok {
+				tgt = stripConv(mi.X)
+			}
+			fresh := false
+			if al, ok := tgt.(*ssa.Alloc); ok && al.Parent() == lit {
+				// not inside an enclosing loop of the same function that would reuse it: an Alloc executes per evaluation
+				fresh = true
+			}
+			c.verdict(c.fnKey(lit)+":decode-target", ci.Pos(), fresh, "decoded into a value allocated per record", "records are decoded into a value shared between iterations: labels of an earlier mountpoint survive in the map and are used to re-mount a later one")
+		}
+	}
+	if n == 0 {
+		c.bad(c.fnKey(f)+":decode", f.Pos(), "restoreFuseInfo no longer decodes records")
+	}
+}
+
+// clauseHubAliasOnContactedHost: the Docker Hub credential alias is applied according to the host being contacted.
+func clauseHubAliasOnContactedHost(c *Ctx, id string) {
+	const cri = "service/keychain/cri"
+	c.clause(id, "T9", "the Docker Hub alias (index.docker.io) is selected by the host that is being contacted (the host parameter), never by the image's own registry", 2)
+	f := c.mustFn(cri, "(*instrumentedService).credentials")
+	if f == nil {
+		return
+	}
+	n := 0
+	eachInstr(f, func(i ssa.Instruction) {
+		b, ok := i.(*ssa.BinOp)
+		if !ok || b.Op != token.EQL {
+			return
+		}
+		for _, pair := range [][2]ssa.Value{{b.X, b.Y}, {b.Y, b.X}} {
+			s, ok := constString(pair[1])
+			if !ok || (s != "docker.io" && s != "registry-1.docker.io") {
+				continue
+			}
+			n++
+			good := false
+			for _, v := range append([]ssa.Value{pair[0]}, reachingVals(pair[0])...) {
+				if p, ok := stripConv(v).(*ssa.Parameter); ok && len(f.Params) > 1 && p == f.Params[1] {
+					good = true
+				}
+			}
+			c.verdict(c.fnKey(f)+":alias-by-contacted-host:"+s, b.Pos(), good, "alias chosen by the contacted host", "the Docker Hub alias is chosen by the image's registry instead of the contacted host: Hub credentials are offered to mirrors, redirect targets and any other host contacted for a docker.io image")
+		}
+	})
+	if n == 0 {
+		c.bad(c.fnKey(f)+":alias", f.Pos(), "Docker Hub alias handling not found")
+	}
+}
+
+// clauseSinglePartLabelFromHeader / clauseCacheHitComplete: two premises of byte-exact blob reads.
+func clauseRangeLabelAndCompleteHit(c *Ctx, id string) {
+	const rp = "fs/remote"
+	c.clause(id, "T9+T1", "a single-part 206 body is labelled with the range parsed from its Content-Range header (not with the range that was asked for); a blob-cache hit counts only when the whole requested length was read", 2)
+	if f := c.mustFn(rp, "(*httpFetcher).fetch"); f != nil {
+		n := 0
+		for _, ci := range callsIn(f, idIs(rp+".newSinglePartReader")) {
+			n++
+			reg := ci.Common().Args[0]
+			good := false
+			for _, v := range append([]ssa.Value{reg}, reachingVals(reg)...) {
+				if ex, ok := stripConv(v).(*ssa.Extract); ok {
+					if pc, ok := ex.Tuple.(*ssa.Call); ok && calleeID(pc) == rp+".parseRange" {
+						// and parseRange's argument is the Content-Range header of the response
+						if hg, ok := stripConv(pc.Call.Args[0]).(*ssa.Call); ok && strings.HasSuffix(calleeID(hg), "Header).Get") {
+							if s, ok := constString(hg.Call.Args[1]); ok && s == "Content-Range" {
+								good = true
+							}
+						}
+					}
+				}
+				// the whole-body case: region [0, size-1] built from the blob size is also a truthful label
+				if call, ok := stripConv(v).(*ssa.Call); ok && calleeID(call) != rp+".parseRange" {
+					_ = call
+				}
+			}
+			// 200 OK whole body: labelled region{0, size-1}
+			if !good {
+				if okWhole := wholeBodyRegion(reg); okWhole {
+					good = true
+				}
+			}
+			c.verdict(c.fnKey(f)+":single-part-label", ci.Pos(), good, "label = parsed Content-Range (or the whole blob for 200)", "a partial response is labelled with the requested range instead of the range the server says it sent: a CDN answering with a widened range makes ReadAt return shifted bytes and poisons the cache")
+		}
+		if n == 0 {
+			c.bad(c.fnKey(f)+":single-part", f.Pos(), "single-part responses are no longer handled")
+		}
+	}
+	if f := c.mustFn(rp, "(*blob).readFromCache"); f != nil {
+		var full []edge
+		n := 0
+		for _, ci := range callsIn(f, func(_ string, ci ssa.CallInstruction) bool {
+			return ci.Common().IsInvoke() && ci.Common().Method.Name() == "ReadAt"
+		}) {
+			n++
+			cnt := resultN(ci, 0)
+			full = append(full, condEdges(f, func(cond ssa.Value) int {
+				b, ok := cond.(*ssa.BinOp)
+				if !ok || (b.Op != token.EQL && b.Op != token.NEQ) {
+					return 0
+				}
+				isCnt := func(v ssa.Value) bool { return cnt != nil && flowsFrom(stripConv(v), cnt, 0) }
+				isLen := func(v ssa.Value) bool {
+					call, ok := stripConv(v).(*ssa.Call)
+					if !ok {
+						return false
+					}
+					bi, ok := call.Call.Value.(*ssa.Builtin)
+					return ok && bi.Name() == "len"
+				}
+				if (isCnt(b.X) && isLen(b.Y)) || (isCnt(b.Y) && isLen(b.X)) {
+					if b.Op == token.EQL {
+						return 1
+					}
+					return -1
+				}
+				return 0
+			})...)
+		}
+		good := n > 0 && len(full) > 0
+		for _, r := range realReturns(f) {
+			if returnsNilError(r) {
+				if o, _ := mustPass(f, r, newCuts().addEdges(full)); !o {
+					good = false
+				}
+			}
+		}
+		c.verdict(c.fnKey(f)+":complete-hit", f.Pos(), good, "a hit requires n == len(dest)", "a short read from the blob cache (truncated cache file) counts as a hit: ReadAt succeeds with zeros for the missing tail instead of refetching the chunk")
+	}
+}
+
+func wholeBodyRegion(v ssa.Value) bool {
+	// region{0, size-1}: a struct literal / field stores whose b is the constant 0
+	for _, x := range append([]ssa.Value{v}, reachingVals(v)...) {
+		x = stripConv(x)
+		if ld, ok := x.(*ssa.UnOp); ok {
+			if al, ok := ld.X.(*ssa.Alloc); ok {
+				for _, r := range *al.Referrers() {
+					if fa, ok := r.(*ssa.FieldAddr); ok && fieldName(fa) == "b" {
+						for _, rr := range *fa.Referrers() {
+							if st, ok := rr.(*ssa.Store); ok {
+								if k, ok := constInt(st.Val); ok && k == 0 {
+									return true
+								}
+							}
+						}
+					}
+				}
+			}
+		}
+	}
+	return false
+}
+
+// ---- round-2 clauses for C02/C03/C07/C19 ----
+
+// clauseLookupMemoryNodeAttrs: a repeated LOOKUP answered from the live child inode reports that child's attributes.
+func clauseLookupMemoryNodeAttrs(c *Ctx, id string) {
+	const lp = "fs/layer"
+	c.clause(id, "T9", "node.Lookup answers a name whose inode is still alive from that child's own id and attributes (never from the directory's)", 2)
+	f := c.mustFn(lp, "(*node).Lookup")
+	if f == nil {
+		return
+	}
+	gc := callsIn(f, func(id string, _ ssa.CallInstruction) bool { return strings.HasSuffix(id, "go-fuse/v2/fs.(*Inode).GetChild") })
+	if len(gc) == 0 {
+		c.unk(c.fnKey(f)+":memory-node", f.Pos(), "lookup on live child inodes not found")
+		return
+	}
+	// the receiver's own attr field must not be an argument of entryToAttr/entryToWhAttr on a path from GetChild's non-nil edge
+	n := 0
+	for _, ci := range callsIn(f, idIs(lp+".entryToAttr", lp+".entryToWhAttr")) {
+		if !dominatesInstr(gc[0], ci) {
+			continue
+		}
+		// only the calls in the memory-node branch: they precede the metadata GetChild calls
+		meta := callsIn(f, func(_ string, x ssa.CallInstruction) bool { return x.Common().IsInvoke() && x.Common().Method.Name() == "GetChild" })
+		early := true
+		for _, m := range meta {
+			if dominatesInstr(m, ci) {
+				early = false
+			}
+		}
+		if !early {
+			continue
+		}
+		n++
+		attr := ci.Common().Args[1]
+		own := false
+		for _, v := range append([]ssa.Value{attr}, reachingVals(attr)...) {
+			if fa, ok := loadOfField(v); ok && fieldName(fa) == "attr" {
+				if p, ok := stripConv(fa.X).(*ssa.Parameter); ok && p == f.Params[0] {
+					own = true
+				}
+			}
+		}
+		c.verdict(c.fnKey(f)+":live-child-attrs", ci.Pos(), !own, "attributes of the child node", "a lookup answered from the live child inode is filled with the directory's own attributes: the second lookup of a file reports a directory (mode 0755, size 0)")
+	}
+	if n == 0 {
+		c.unk(c.fnKey(f)+":live-child-attrs", f.Pos(), "attribute conversion in the live-child branch not found")
+	}
+}
+
+// clauseResetCoversDecodedFields: the bolt store decodes every TOC entry into one reused value; resetEnt must clear every
+// field encoding/json can set, otherwise a field absent from one entry keeps the previous entry's value.
+func clauseResetCoversDecodedFields(c *Ctx, id string) {
+	const dbp = "cmd/containerd-stargz-grpc/db"
+	c.clause(id, "T5", "resetEnt clears every JSON-decoded field of estargz.TOCEntry (the decode target is reused; json leaves absent keys and merges maps)", 1)
+	f := c.mustFn(dbp, "resetEnt")
+	nt := c.namedType("estargz.TOCEntry")
+	if f == nil || nt == nil {
+		return
+	}
+	st, ok := nt.Underlying().(*types.Struct)
+	if !ok {
+		return
+	}
+	set := map[string]bool{}
+	eachInstr(f, func(i ssa.Instruction) {
+		if s, ok := i.(*ssa.Store); ok {
+			if fa, ok := s.Addr.(*ssa.FieldAddr); ok {
+				set[fieldName(fa)] = true
+			}
+		}
+	})
+	var missing []string
+	for i := 0; i < st.NumFields(); i++ {
+		fl := st.Field(i)
+		tag := reflectTagJSON(st.Tag(i))
+		if !fl.Exported() || tag == "-" {
+			continue
+		}
+		if !set[fl.Name()] {
+			missing = append(missing, fl.Name())
+		}
+	}
+	c.verdict(c.fnKey(f)+":covers-json-fields", f.Pos(), len(missing) == 0, "every decoded field is reset", "resetEnt leaves decoded fields untouched ("+strings.Join(missing, ", ")+"): values (e.g. xattrs) of one TOC entry leak into the following entries in the bolt store only")
+}
+
+func reflectTagJSON(tag string) string {
+	i := strings.Index(tag, `json:"`)
+	if i < 0 {
+		return ""
+	}
+	rest := tag[i+6:]
+	j := strings.Index(rest, `"`)
+	if j < 0 {
+		return ""
+	}
+	return strings.Split(rest[:j], ",")[0]
+}
+
+// clauseOwnerNameDedup: the writer omits a user/group name only when it equals the name last written for that id.
+func clauseOwnerNameDedup(c *Ctx, id string) {
+	c.clause(id, "T2", "nameIfChanged remembers the name it returns: every return of a non-empty name passes the map update for that id (readers fill an omitted name with the last one they saw)", 1)
+	f := c.mustFn("estargz", "(*Writer).nameIfChanged")
+	if f == nil {
+		return
+	}
+	var ups []ssa.Instruction
+	eachInstr(f, func(i ssa.Instruction) {
+		if mu, ok := i.(*ssa.MapUpdate); ok {
+			if p, ok := stripConv(mu.Value).(*ssa.Parameter); ok && p.Name() == "name" {
+				ups = append(ups, i)
+			}
+		}
+	})
+	good, n := len(ups) > 0, 0
+	for _, r := range realReturns(f) {
+		for _, v := range retVals(r, 0) {
+			if s, ok := constString(v); ok && s == "" {
+				continue
+			}
+			n++
+			if o, _ := mustPass(f, r, newCuts().addInstr(ups...)); !o {
+				good = false
+			}
+		}
+	}
+	c.verdict(c.fnKey(f)+":remembers-returned-name", f.Pos(), good && n > 0, "a returned name is recorded as the last one written", "a name can be written to the TOC without being remembered as the last one for its id: after A, B, A the second A is omitted and readers report B while the tar header says A")
+}
+
+// clauseGzipHelperOnlyForGzip: Build decompresses its own output for the DiffID with the external gzip helper only when
+// the output compression is gzip.
+func clauseGzipHelperOnlyForGzip(c *Ctx, id string) {
+	c.clause(id, "T1", "Build uses the external gzip helper to read its output back only on the edge where the output compression is gzip", 1)
+	f := c.mustFn("estargz", "Build")
+	if f == nil {
+		return
+	}
+	n := 0
+	for _, g := range withAnon(f) {
+		if g == f {
+			continue // Build itself hands the helper to decompressBlob for the (possibly gzip) input, which tests the input's magic
+		}
+		isGz := condEdges(g, func(cond ssa.Value) int {
+			if ex, ok := cond.(*ssa.Extract); ok && ex.Index == 1 {
+				if ta, ok := ex.Tuple.(*ssa.TypeAssert); ok && strings.HasSuffix(ta.AssertedType.String(), "gzipCompression") {
+					return 1
+				}
+			}
+			if b, ok := cond.(*ssa.BinOp); ok {
+				_ = b
+			}
+			return 0
+		})
+		eachInstr(g, func(i ssa.Instruction) {
+			ld, ok := i.(*ssa.UnOp)
+			if !ok || ld.Op != token.MUL {
+				return
+			}
+			fa, ok := ld.X.(*ssa.FieldAddr)
+			if !ok || fieldName(fa) != "gzipHelperFunc" {
+				return
+			}
+			// uses of the helper value other than the nil test
+			for _, r := range *ld.Referrers() {
+				if b, ok := r.(*ssa.BinOp); ok && (b.Op == token.NEQ || b.Op == token.EQL) {
+					continue
+				}
+				if _, ok := r.(*ssa.DebugRef); ok {
+					continue
+				}
+				n++
+				ri, _ := r.(ssa.Instruction)
+				okp, _ := mustPass(g, ri, newCuts().addEdges(isGz))
+				c.verdict(c.fnKey(g)+":helper-only-for-gzip", ld.Pos(), okp && len(isGz) > 0, "helper selected behind the output-is-gzip test", "the gzip helper is used to read back a blob that was not written as gzip (zstd:chunked output): reading the built blob fails and no DiffID is produced")
+			}
+		})
+	}
+	if n == 0 {
+		c.okTrivial("estargz.Build:no-helper-use", f.Pos(), "the helper is not used in Build")
+	}
+}
+
+// clauseReuseOnlyVerifiedLayer: ctr-remote optimize keeps an already converted layer only after its TOC digest annotation
+// was verified against the blob.
+func clauseReuseOnlyVerifiedLayer(c *Ctx, id string) {
+	const op = "cmd/ctr-remote/commands"
+	c.clause(id, "T1+T9", "isReusableESGZLayer answers true only after VerifyTOC succeeded with the digest parsed from the layer's TOC digest annotation", 1)
+	f := c.mustFn(op, "isReusableESGZLayer")
+	if f == nil {
+		return
+	}
+	var se []edge
+	argOK := false
+	for _, ci := range callsIn(f, idIs("estargz.(*Reader).VerifyTOC")) {
+		se = append(se, successEdges(f, ci)...)
+		for _, v := range append([]ssa.Value{ci.Common().Args[1]}, reachingVals(ci.Common().Args[1])...) {
+			if ex, ok := stripConv(v).(*ssa.Extract); ok {
+				if pc, ok := ex.Tuple.(*ssa.Call); ok && strings.HasSuffix(calleeID(pc), "go-digest.Parse") {
+					argOK = true
+				}
+			}
+		}
+	}
+	good := len(se) > 0 && argOK
+	for _, r := range realReturns(f) {
+		for _, v := range retVals(r, 0) {
+			if isConstBool(v, false) {
+				continue
+			}
+			if o, _ := mustPass(f, r, newCuts().addEdges(se)); !o {
+				good = false
+			}
+		}
+	}
+	c.verdict(c.fnKey(f)+":reuse-after-verify", f.Pos(), good, "a layer is reused only when its annotation verifies against its TOC", "a layer is kept as already converted without comparing its TOC digest annotation with the blob: a stale or foreign annotation is emitted unchanged and the descriptor does not verify")
+}
+
+// clauseHelperFailureSurfaces: the reader over an external gzip helper reports every abnormal helper exit.
+func clauseHelperFailureSurfaces(c *Ctx, id string) {
+	c.clause(id, "T1", "the pipe fed by the external gzip helper is closed without an error only on the success edge of cmd.Wait(): a killed helper never looks like a clean end of stream", 1)
+	f := c.mustFn("util/decompressutil", "getCmdGzipHelperFunc")
+	if f == nil {
+		return
+	}
+	n := 0
+	for _, g := range withAnon(f) {
+		waits := callsIn(g, idIs("os/exec.(*Cmd).Wait"))
+		if len(waits) == 0 {
+			continue
+		}
+		var se []edge
+		for _, w := range waits {
+			se = append(se, successEdges(g, w)...)
+		}
+		withErr := callsIn(g, idIs("io.(*PipeWriter).CloseWithError"))
+		for _, cl := range callsIn(g, idIs("io.(*PipeWriter).Close")) {
+			n++
+			// a plain Close is fine after CloseWithError (first close wins) or on the success edge
+			o1, _ := mustPass(g, cl, newCuts().addEdges(se).addCalls(withErr))
+			c.verdict(c.fnKey(g)+":clean-close-only-on-success", cl.Pos(), o1 && len(se) > 0, "clean close only after Wait() succeeded or after the error was set", "the helper's pipe can be closed cleanly although the helper did not exit successfully (e.g. killed by a signal): a truncated decompressed stream is taken as complete and a wrong DiffID/size is recorded")
+		}
+	}
+	if n == 0 {
+		c.bad(c.fnKey(f)+":wait", f.Pos(), "helper exit status is no longer observed")
+	}
+}
+
+// clauseMediaTypeBySharedPredicate: every layer converter decides "is the source uncompressed" with containerd's predicate.
+func clauseMediaTypeBySharedPredicate(c *Ctx, id string) {
+	c.clause(id, "T5", "every native converter that rewrites the media type of a gzip output asks containerd's uncompress.IsUncompressedType (sibling converters agree on the set of uncompressed layer types, foreign layers included)", 2)
+	n := 0
+	for _, pk := range []string{"nativeconverter/estargz", "nativeconverter/estargz/externaltoc", "nativeconverter/zstdchunked"} {
+		for _, f := range c.pkgFuncs(pk) {
+			writes := false
+			eachInstr(f, func(i ssa.Instruction) {
+				if st, ok := i.(*ssa.Store); ok {
+					if fa, ok := st.Addr.(*ssa.FieldAddr); ok && fieldName(fa) == "MediaType" && strings.HasSuffix(typeQName(fa.X.Type()), "v1.Descriptor") {
+						if _, isLoad := loadOfField(st.Val); !isLoad {
+							writes = true
+						}
+					}
+				}
+			})
+			if !writes {
+				continue
+			}
+			// converters producing gzip: those that append ".gzip"/"+gzip" or call a helper; the zstd converter sets a constant
+			isConstSet := false
+			eachInstr(f, func(i ssa.Instruction) {
+				if st, ok := i.(*ssa.Store); ok {
+					if fa, ok := st.Addr.(*ssa.FieldAddr); ok && fieldName(fa) == "MediaType" {
+						if _, ok := constString(st.Val); ok {
+							isConstSet = true
+						}
+					}
+				}
+			})
+			if isConstSet {
+				continue
+			}
+			n++
+			uses := len(callsIn(f, func(id string, _ ssa.CallInstruction) bool { return strings.HasSuffix(id, "converter/uncompress.IsUncompressedType") })) > 0
+			c.verdict(c.fnKey(f)+":media-type-predicate", f.Pos(), uses, "uses uncompress.IsUncompressedType", "the converter rewrites the media type by its own table instead of containerd's IsUncompressedType: an uncompressed type missing from the table (docker foreign layer) keeps its media type although the committed blob is gzip")
+		}
+	}
+	if n == 0 {
+		c.bad("nativeconverter:media-type", token.NoPos, "no converter rewrites the media type any more")
+	}
+}
+
+// clauseExistingDirReused: the bolt tree builder reuses the node of a directory that already exists whenever the name
+// resolves; it never creates a second node for the same directory name (children registered so far would be lost).
+func clauseExistingDirReused(c *Ctx, id string) {
+	const dbp = "cmd/containerd-stargz-grpc/db"
+	c.clause(id, "T1", "initNodes never creates a new node for a directory name that already resolves (a directory listed twice keeps its children, like in the memory store)", 1)
+	f := c.mustFn(dbp, "(*reader).initNodes")
+	if f == nil {
+		return
+	}
+	n := 0
+	for _, lit := range withAnon(f) {
+		creates := callsIn(lit, func(id string, _ ssa.CallInstruction) bool { return strings.HasSuffix(id, "bbolt.(*Bucket).CreateBucket") })
+		if len(creates) == 0 {
+			continue
+		}
+		for _, g := range callsIn(lit, idIs(dbp+".getIDByName")) {
+			// only the lookup of the entry's own name (in the dir branch): its key is ent.Name
+			if _, ok := isFieldLoadAny(g.Common().Args[1], "Name"); !ok {
+				continue
+			}
+			n++
+			good := true
+			detail := ""
+			for _, e := range successEdges(lit, g) {
+				for _, cr := range creates {
+					// within the handling of this entry: the next Decode starts another entry
+					next := callsIn(lit, func(id string, _ ssa.CallInstruction) bool {
+						return strings.HasSuffix(id, "json.(*Decoder).Decode") || strings.HasSuffix(id, "json.(*Decoder).More")
+					})
+					if hit, path := reachPhiAware(lit, lit.Blocks[e.from].Succs[e.succ], isInstr(cr), newCuts().addInstr(g).addCalls(next)); hit != nil {
+						good = false
+						detail = c.pathStr(lit, path)
+					}
+				}
+			}
+			c.verdict(c.fnKey(lit)+":existing-dir-reused", g.Pos(), good, "no node creation on the path where the directory already exists", "a directory entry whose name already resolves can get a fresh node: entries registered under the first node (files, whiteouts) disappear from the bolt store while the memory store keeps them: "+detail)
+		}
+	}
+	if n == 0 {
+		c.unk(c.fnKey(f)+":dir-lookup", f.Pos(), "lookup of an existing directory by its own name not found")
+	}
+}
+
+// clauseWhiteoutInodeFromMarker: the inode number of a whiteout answered by Lookup is derived from the marker entry's id.
+func clauseWhiteoutInodeFromMarker(c *Ctx, id string) {
+	const lp = "fs/layer"
+	c.clause(id, "T9", "the whiteout inode returned by Lookup is numbered from the id of the .wh.<name> entry that was found (the id Readdir numbers it from)", 1)
+	f := c.mustFn(lp, "(*node).Lookup")
+	if f == nil {
+		return
+	}
+	var prefixed ssa.CallInstruction
+	for _, g := range callsIn(f, func(_ string, ci ssa.CallInstruction) bool { return ci.Common().IsInvoke() && ci.Common().Method.Name() == "GetChild" }) {
+		if !isParamish(g.Common().Args[1]) {
+			prefixed = g
+		}
+	}
+	if prefixed == nil {
+		c.unk(c.fnKey(f)+":whiteout-inode", f.Pos(), "lookup of the prefixed name not found")
+		return
+	}
+	whID := resultN(prefixed, 0)
+	n := 0
+	for _, ci := range callsIn(f, idIs(lp+".(*fs).inodeOfID")) {
+		if !dominatesInstr(prefixed, ci) {
+			continue
+		}
+		// only the call in the whiteout branch: on the success edge of the prefixed lookup
+		if o, _ := mustPass(f, ci, newCuts().addEdges(successEdges(f, prefixed))); !o {
+			continue
+		}
+		n++
+		arg := ci.Common().Args[1]
+		good := whID != nil && (stripConv(arg) == stripConv(whID) || flowsFrom(stripConv(arg), whID, 0))
+		c.verdict(c.fnKey(f)+":whiteout-inode", ci.Pos(), good, "numbered from the marker's id", "the whiteout's inode number is computed from another id than the marker's (the failed plain lookup leaves id 0): all whiteouts of a layer share one inode number and Lookup disagrees with Readdir")
+	}
+	if n == 0 {
+		c.unk(c.fnKey(f)+":whiteout-inode", f.Pos(), "inode computation of the whiteout not found")
+	}
+}
+
+// reachPhiAware: like reach from the start of block `start`, but a branch whose condition is a phi of boolean constants
+// (a flag variable such as `found`) is followed only in the direction the constant of the edge just taken dictates.
+func reachPhiAware(f *ssa.Function, start *ssa.BasicBlock, to func(ssa.Instruction) bool, cut *cuts) (ssa.Instruction, []int) {
+	type st struct {
+		b, from *ssa.BasicBlock
+	}
+	type item struct {
+		s    st
+		path []int
+	}
+	seen := map[st]bool{}
+	q := []item{{st{start, nil}, []int{start.Index}}}
+	seen[st{start, nil}] = true
+	for len(q) > 0 {
+		it := q[0]
+		q = q[1:]
+		b := it.s.b
+		blocked := false
+		for _, ins := range b.Instrs {
+			if to(ins) {
+				return ins, it.path
+			}
+			if cut != nil && cut.instrs[ins] {
+				blocked = true
+				break
+			}
+		}
+		if blocked {
+			continue
+		}
+		// which successors are feasible
+		feasible := map[int]bool{}
+		for j := range b.Succs {
+			feasible[j] = true
+		}
+		if iff, ok := b.Instrs[len(b.Instrs)-1].(*ssa.If); ok && it.s.from != nil {
+			cond := ssa.Value(iff.Cond)
+			neg := false
+			if u, ok := cond.(*ssa.UnOp); ok && u.Op == token.NOT {
+				cond, neg = u.X, true
+			}
+			if ph, ok := cond.(*ssa.Phi); ok && ph.Block() == b {
+				for pi, p := range b.Preds {
+					if p == it.s.from {
+						if k, ok := ph.Edges[pi].(*ssa.Const); ok && k.Value != nil {
+							val := k.Value.String() == "true"
+							if neg {
+								val = !val
+							}
+							if val {
+								feasible[1] = false
+							} else {
+								feasible[0] = false
+							}
+						}
+					}
+				}
+			}
+		}
+		for j, s := range b.Succs {
+			if !feasible[j] || (cut != nil && cut.edges[edge{b.Index, j}]) {
+				continue
+			}
+			ns := st{s, b}
+			if seen[ns] {
+				continue
+			}
+			seen[ns] = true
+			q = append(q, item{ns, append(append([]int{}, it.path...), s.Index)})
+		}
+	}
+	return nil, nil
+}
